@@ -1,8 +1,86 @@
 import XmppModel.Prelude.Hex
-/-! Driver module for C15: `handle args` answers one protocol line (fields after the
-property id); `none` means the line is not understood (`!bad-op`). -/
-namespace XmppModel.Driver.C15
+import XmppModel.Model.Ibb
+import XmppModel.Model.IbbReader
+/-! Driver module for C15.
 
-def handle (_args : List String) : Option String := none
+    C15 recv <maxbuf> <ops>    ops `,`-joined:  d:<known>:<seq>:<payloadhex>  data packet
+                                                c   the stream is closed (by either side)
+                                                r:<n>   Read with a buffer of n bytes
+       answer: one observation per op, `,`-joined: ack|inf|unx|bad|res  /  c  /  D<hex>|EOF|BLOCK
+    C15 emit <closed> <writtenhex> <packets>    packets `,`-joined: <seq>:<known>:<payloadhex>
+       answer: ok | bad      (the relation `emits` for the standard codec)
+-/
+namespace XmppModel.Driver.C15
+open XmppModel XmppModel.Ibb
+
+def showReply : Reply → String
+  | .ack => "ack" | .itemNotFound => "inf" | .unexpectedRequest => "unx"
+  | .badRequest => "bad" | .resourceConstraint => "res"
+
+def applyOp (s : RState) (op : String) : Option (RState × String) :=
+  match op.splitOn ":" with
+  | ["d", k, seq, pl] => do
+    let k ← parseBool k; let n ← seq.toNat?; let b ← hexDecode pl
+    let r := recv std s ⟨k, n, b⟩
+    pure (r.1, showReply r.2)
+  | ["c"] => some (close s, "c")
+  | ["r", n] => do
+    let n ← n.toNat?
+    match readOut s n with
+    | .data b => pure ((Ibb.read s n).1, "D" ++ hexEncode b)
+    | .eof => pure (s, "EOF")
+    | .blocks => pure (s, "BLOCK")
+  | _ => none
+
+def runOps : RState → List String → Option (List String)
+  | _, [] => some []
+  | s, o :: os => do
+    let r ← applyOp s o
+    let rest ← runOps r.1 os
+    pure (r.2 :: rest)
+
+def parsePacket (f : String) : Option Packet :=
+  match f.splitOn ":" with
+  | [seq, k, pl] => do
+    let n ← seq.toNat?; let k ← parseBool k; let b ← hexDecode pl
+    pure ⟨k, n, b⟩
+  | _ => none
+
+/-- `C15 reader <acts>`: replay of a forced reader schedule on the LTS of `Model/IbbReader.lean`
+(repaired code).  acts `,`-joined: R Read called, W reader enters its wait, K the wait completes,
+P<n> a packet of n bytes is handled, C close.  answer: `delivered=<n> eof=<0|1> reading=<0|1>` -/
+def readerTok (s : IbbReader.St) (t : String) : Option IbbReader.St :=
+  match t.toList with
+  | ['R'] => IbbReader.step true s .readStart
+  | ['W'] => IbbReader.step true s .enterWait
+  | ['K'] => IbbReader.step true s .wake
+  | ['C'] => IbbReader.step true s .close
+  | 'P' :: r => do let n ← (String.ofList r).toNat?; IbbReader.step true s (.packet n)
+  | _ => none
+
+def readerRun : IbbReader.St → List String → Nat → Except String IbbReader.St
+  | s, [], _ => .ok s
+  | s, t :: ts, k => match readerTok s t with
+    | some s' => readerRun s' ts (k + 1)
+    | none => .error s!"bad@{k}:{t}"
+
+def handle (args : List String) : Option String :=
+  match args with
+  | ["recv", maxbuf, ops] => do
+    let m ← maxbuf.toNat?
+    let r ← runOps ⟨true, 0, [], m⟩ (splitList ops)
+    pure (joinList r)
+  | ["reader", acts] =>
+    match readerRun IbbReader.init (splitList acts) 0 with
+    | .ok s => some s!"delivered={s.delivered} eof={showBool s.eof} reading={showBool (s.rpc != .idle)}"
+    | .error e => some e
+  | ["open", acc] => do
+    let a ← parseBool acc
+    pure (if (openResult a).isSome then "conn" else "err")
+  | ["emit", closed, written, packets] => do
+    let c ← parseBool closed; let w ← hexDecode written
+    let ps ← mapM? parsePacket (splitList packets)
+    pure (if emits std w c ps then "ok" else "bad")
+  | _ => none
 
 end XmppModel.Driver.C15
